@@ -1,3 +1,4 @@
+import Oidc.Shapes
 import Oidc.Proofs.World2
 import Oidc.Proofs.Handler3
 import Oidc.Proofs.Session
@@ -61,5 +62,11 @@ theorem stored_uri_bounded (maxLen : Nat) (uri : Str) : (sanitizeIncoming maxLen
 
 /-- obligations against the regenerated facts -/
 theorem facts_ok : Oidc.Facts.GoodIncoming ∧ Oidc.Facts.GoodSession := by decide
+
+/-! obligations against the regenerated shapes: the functions these theorems rest on still have the steps, guards, status
+    codes and literals the model was written against (`Oidc/Shapes.lean`) -/
+theorem shape_ServeHTTP_ok : Oidc.Shapes.Shape_ServeHTTP := by unfold Oidc.Shapes.Shape_ServeHTTP; rfl
+theorem shape_handleExpiredToken_ok : Oidc.Shapes.Shape_handleExpiredToken := by unfold Oidc.Shapes.Shape_handleExpiredToken; rfl
+theorem shape_defaultInitiateAuthentication_ok : Oidc.Shapes.Shape_defaultInitiateAuthentication := by unfold Oidc.Shapes.Shape_defaultInitiateAuthentication; rfl
 
 end Oidc.Props.C17
